@@ -33,7 +33,7 @@ func writeManifest(verifDir string) {
 	}
 	sort.Strings(ids)
 	var checks []map[string]any
-	var na []map[string]any
+	na := []map[string]any{}
 	var served []string
 	for _, id := range ids {
 		p := props[id]
